@@ -2,6 +2,7 @@ import BlockCiphers.Proofs.AesNi
 import BlockCiphers.Proofs.AesSpec
 import BlockCiphers.Proofs.AesFs64Hazmat
 import BlockCiphers.Proofs.AesFs32Hazmat
+import BlockCiphers.Proofs.AesArmv8
 /-
 C17 — AES hazmat round functions equal the FIPS-197 round transformations
 GENERATED statement file (tools/gen_thm.py): every theorem below restates, verbatim, a theorem of a Proofs/ module
@@ -163,3 +164,61 @@ open BC.Spec.Aes
 theorem C17.fs32_hazmat_inv_mix_columns (block : BitVec 128) : hazmat.inv_mix_columns block = invMixColumns block :=
   _root_.BC.AesFs32.hazmat_inv_mix_columns block
 end BC.AesFs32
+
+namespace BC.AesArmv8
+open BC BC.X86 BC.Arm BC.Spec.Aes BC.AesNi
+theorem C17.armv8_cipher_round_eq (b k : BitVec 128) :
+    cipher_round b k = mixColumns (shiftRows (subBytes b)) ^^^ k :=
+  _root_.BC.AesArmv8.cipher_round_eq b k
+end BC.AesArmv8
+
+namespace BC.AesArmv8
+open BC BC.X86 BC.Arm BC.Spec.Aes BC.AesNi
+theorem C17.armv8_equiv_inv_cipher_round_eq (b k : BitVec 128) :
+    equiv_inv_cipher_round b k = invMixColumns (invShiftRows (invSubBytes b)) ^^^ k :=
+  _root_.BC.AesArmv8.equiv_inv_cipher_round_eq b k
+end BC.AesArmv8
+
+namespace BC.AesArmv8
+open BC BC.X86 BC.Arm BC.Spec.Aes BC.AesNi
+theorem C17.armv8_mix_columns_eq (b : BitVec 128) : mix_columns b = mixColumns b :=
+  _root_.BC.AesArmv8.mix_columns_eq b
+end BC.AesArmv8
+
+namespace BC.AesArmv8
+open BC BC.X86 BC.Arm BC.Spec.Aes BC.AesNi
+theorem C17.armv8_inv_mix_columns_eq (b : BitVec 128) : inv_mix_columns b = invMixColumns b :=
+  _root_.BC.AesArmv8.inv_mix_columns_eq b
+end BC.AesArmv8
+
+namespace BC.AesArmv8
+open BC BC.X86 BC.Arm BC.Spec.Aes BC.AesNi
+theorem C17.armv8_inv_mix_columns_mix_columns (b : BitVec 128) : inv_mix_columns (mix_columns b) = b :=
+  _root_.BC.AesArmv8.inv_mix_columns_mix_columns b
+end BC.AesArmv8
+
+namespace BC.AesArmv8
+open BC BC.X86 BC.Arm BC.Spec.Aes BC.AesNi
+theorem C17.armv8_mix_columns_inv_mix_columns (b : BitVec 128) : mix_columns (inv_mix_columns b) = b :=
+  _root_.BC.AesArmv8.mix_columns_inv_mix_columns b
+end BC.AesArmv8
+
+namespace BC.AesArmv8
+open BC BC.X86 BC.Arm BC.Spec.Aes BC.AesNi
+/-- `cipher_round_par` on 8 blocks and 8 round keys = 8 independent `cipher_round` calls -/
+theorem C17.armv8_cipher_round_par_eq (b0 b1 b2 b3 b4 b5 b6 b7 k0 k1 k2 k3 k4 k5 k6 k7 : BitVec 128) :
+    cipher_round_par [b0, b1, b2, b3, b4, b5, b6, b7] [k0, k1, k2, k3, k4, k5, k6, k7] =
+      [cipher_round b0 k0, cipher_round b1 k1, cipher_round b2 k2, cipher_round b3 k3,
+       cipher_round b4 k4, cipher_round b5 k5, cipher_round b6 k6, cipher_round b7 k7] :=
+  _root_.BC.AesArmv8.cipher_round_par_eq b0 b1 b2 b3 b4 b5 b6 b7 k0 k1 k2 k3 k4 k5 k6 k7
+end BC.AesArmv8
+
+namespace BC.AesArmv8
+open BC BC.X86 BC.Arm BC.Spec.Aes BC.AesNi
+theorem C17.armv8_equiv_inv_cipher_round_par_eq (b0 b1 b2 b3 b4 b5 b6 b7 k0 k1 k2 k3 k4 k5 k6 k7 : BitVec 128) :
+    equiv_inv_cipher_round_par [b0, b1, b2, b3, b4, b5, b6, b7] [k0, k1, k2, k3, k4, k5, k6, k7] =
+      [equiv_inv_cipher_round b0 k0, equiv_inv_cipher_round b1 k1, equiv_inv_cipher_round b2 k2,
+       equiv_inv_cipher_round b3 k3, equiv_inv_cipher_round b4 k4, equiv_inv_cipher_round b5 k5,
+       equiv_inv_cipher_round b6 k6, equiv_inv_cipher_round b7 k7] :=
+  _root_.BC.AesArmv8.equiv_inv_cipher_round_par_eq b0 b1 b2 b3 b4 b5 b6 b7 k0 k1 k2 k3 k4 k5 k6 k7
+end BC.AesArmv8
